@@ -31,14 +31,20 @@ PINNED_EXPECT = [('C19.R1', 'emd.support.ensure_1d_with_singleton', '(5, 2)'),
                  ('L1', 'emd.support.ensure_equal_dims', 'numpy.alltrue')]
 
 NUMERIC = ['emd.sift', 'emd.spectra', 'emd.cycles', 'emd._cycles_support', 'emd.utils', 'emd.support']
-SHAPES = [(5,), (5, 1), (5, 1, 1), (5, 2), (1, 5), (5, 1, 3), (5, 2, 3)]
+SHAPES = [(5,), (5, 1), (5, 1, 1), (5, 2), (1, 5), (5, 1, 3), (5, 2, 3), (1, 5, 1), (1, 1, 5), (1,), (1, 1)]
 ORACLE = {
     'ensure_1d_with_singleton': {(5,): (5, 1), (5, 1): (5, 1), (5, 1, 1): (5, 1), (5, 2): 'raise', (1, 5): 'raise',
-                                 (5, 1, 3): 'raise', (5, 2, 3): 'raise'},
+                                 (5, 1, 3): 'raise', (5, 2, 3): 'raise', (1, 5, 1): 'raise', (1, 1, 5): 'raise',
+                                 (1,): (1, 1), (1, 1): (1, 1)},
     'ensure_vector': {(5,): (5,), (5, 1): (5,), (5, 1, 1): 'raise', (5, 2): 'raise', (1, 5): 'raise',
-                      (5, 1, 3): 'raise', (5, 2, 3): 'raise'},
-    'ensure_2d': {(5,): (5, 1), (5, 1): (5, 1), (5, 2): (5, 2)},
+                      (5, 1, 3): 'raise', (5, 2, 3): 'raise', (1, 5, 1): 'raise', (1, 1, 5): 'raise',
+                      (1,): (1,), (1, 1): (1,)},
+    # ensure_2d only adds the column axis to vectors: everything that already has >= 2 axes passes through unchanged
+    # (a single time sample of several components, shape (1, M), stays one row)
+    'ensure_2d': {(5,): (5, 1), (5, 1): (5, 1), (5, 2): (5, 2), (1, 5): (1, 5), (1,): (1, 1), (1, 1): (1, 1),
+                  (5, 2, 3): (5, 2, 3), (1, 5, 1): (1, 5, 1)},
 }
+FLOORS['C19.R1'] = 30
 SINGLE_SIGNAL = [('emd.sift.sift', 'ensure_1d_with_singleton', 'X'), ('emd.sift.ensemble_sift', 'ensure_1d_with_singleton', 'X'),
                  ('emd.sift.complete_ensemble_sift', 'ensure_1d_with_singleton', 'X'),
                  ('emd.sift.mask_sift', 'ensure_1d_with_singleton', 'X'),
@@ -59,6 +65,7 @@ MULTI_ARRAY = [('emd.spectra.hilberthuang', {'infr', 'inam'}), ('emd.spectra.hol
 
 def run(ctx):
     rule_shape_classes(ctx, 'C19.R1')
+    rule_layout_only(ctx, 'C19.R1')
     rule_canonical_first(ctx, 'C19.R2')
     rule_no_mutation(ctx, 'C19.R3')
     rule_length_checks(ctx, 'C19.R4')
@@ -128,6 +135,78 @@ def rule_shape_classes(ctx, rid):
                               % (shape, 'is passed on with shape %s' % (got,) if got != 'raise' else 'is rejected',
                                  'a ValueError' if want == 'raise' else 'shape %s' % (want,)),
                               expected=str(want), found=str(got))
+
+
+LAYOUT_CALLS = {'numpy.squeeze', 'numpy.atleast_1d', 'numpy.atleast_2d', 'numpy.atleast_3d', 'numpy.reshape',
+                'numpy.asarray', 'numpy.asanyarray', 'numpy.array', 'numpy.ascontiguousarray', 'numpy.expand_dims',
+                'numpy.transpose', 'numpy.ravel', 'numpy.copy'}
+LAYOUT_METHS = {'squeeze', 'reshape', 'copy', 'flatten', 'ravel', 'transpose', 'view'}
+
+
+def _layout_only(t, inp):
+    """None if t is `inp` seen through layout-only operations (indexing by slices / new axes / 0, squeeze, reshape,
+    copy, transpose, as-array without a dtype change); otherwise the offending sub-term."""
+    if t == inp:
+        return None
+    if t[0] == 'sub':
+        idx = t[2]
+        items = idx[1] if idx[0] == 'tuple' else (idx,)
+        for it in items:
+            ok = it[0] == 'slice' and all(is_c(x) for x in it[1:4]) or it == ('ref', 'numpy.newaxis') \
+                or (is_c(it) and (it[1] is None or it[1] is Ellipsis or it[1] == 0))
+            if not ok:
+                return t
+        return _layout_only(t[1], inp)
+    if t[0] == 'attr' and t[2] == 'T':
+        return _layout_only(t[1], inp)
+    if t[0] == 'meth' and t[1] in LAYOUT_METHS:
+        if any(inp in set(subterms(a)) for a in t[3]):
+            return t
+        return _layout_only(t[2], inp)
+    if t[0] == 'call' and t[1] in LAYOUT_CALLS and t[2]:
+        kw = dict(t[3])
+        dt = kw.get('dtype')
+        if dt is not None and not (dt[0] == 'attr' and dt[2] == 'dtype' and _layout_only(dt[1], inp) is None):
+            return t
+        return _layout_only(t[2][0], inp)
+    return t
+
+
+def rule_layout_only(ctx, rid):
+    """The ensure_* routines hand every array back with its own values: each returned array is its own input seen
+    through layout-only operations, whatever the other inputs are (evaluated with two inputs)."""
+    P = ctx.P
+    for name in ORACLE:
+        fi = P.func('emd.support.' + name)
+        x, y = S('x?'), S('y?')
+        exits = Evaluator(P).run(fi, args={fi.params[0]: ('list', (x, y)), fi.params[1]: ('list', (C('x'), C('y'))),
+                                           fi.params[2]: C('f')})
+        ctx.paths += len(exits)
+        c = 'every returned array is its own input through layout-only operations'
+        bad = None
+        n = 0
+        for e in exits:
+            if e.kind != 'return':
+                continue
+            v = e.value
+            if not (v[0] in ('list', 'tuple') and len(v[1]) == 2):
+                bad = (e, 'two inputs do not come back as two arrays: %s' % show(v)[:80])
+                break
+            n += 1
+            for inp, out in zip((x, y), v[1]):
+                off = _layout_only(out, inp)
+                if off is not None:
+                    bad = (e, 'input %s comes back as %s: %s is not a layout-only operation on that input'
+                           % (inp[1][0], show(out)[:70], show(off)[:70]))
+                    break
+            if bad:
+                break
+        if bad:
+            ctx.violation(rid, fi, c, bad[1], path=trace_tail(bad[0].state, 6))
+        elif n == 0:
+            ctx.undecided(rid, fi, c, 'no return path with two inputs')
+        else:
+            ctx.passed(rid, fi, c, '%d return paths x 2 inputs' % n)
 
 
 def rule_canonical_first(ctx, rid):
@@ -226,15 +305,46 @@ def rule_length_checks(ctx, rid):
             ctx.passed(rid, fi, c)
         else:
             ctx.violation(rid, fi, c, 'mismatched array lengths are no longer rejected by %s' % fi.name)
-    # the check itself must raise on mismatch
+    # the check itself must raise exactly on a mismatch: the path conditions of ensure_equal_dims are evaluated
+    # concretely on representative shape lists (no repository code is run; see conceval.py)
+    from ..conceval import ConcEval, Arr, Undecided
     fi = P.func('emd.support.ensure_equal_dims')
     exits = Evaluator(P).run(fi)
-    raises = [e for e in exits if e.kind == 'raise']
-    c = 'ensure_equal_dims raises on a mismatch'
-    if raises:
-        ctx.passed(rid, fi, c, '%d raising path(s)' % len(raises))
-    else:
-        ctx.violation(rid, fi, c, 'no path of ensure_equal_dims raises')
+    ctx.paths += len(exits)
+    CASES = [
+        ([(5,), (5,)], None, False), ([(5,), (6,)], None, True), ([(5,), (5,), (6,)], None, True),
+        ([(5,), (6,), (5,)], None, True), ([(6,), (5,), (5,)], None, True), ([(5,)], None, False),
+        ([(5, 2), (5, 2)], None, False), ([(5, 2), (5, 3)], None, True), ([(5, 2), (5, 3)], 0, False),
+        ([(5, 2), (6, 2)], 0, True), ([(5, 2), (6, 2)], 1, False), ([(5, 2), (5, 2), (5, 3)], 1, True),
+        ([(5,), (5,), (5,), (7,)], 0, True), ([(4, 3), (4, 3), (4, 3)], None, False),
+    ]
+    for shapes, dim, mismatch in CASES:
+        c = 'ensure_equal_dims(%s, dim=%s) %s' % (shapes, dim, 'raises' if mismatch else 'accepts')
+        taken = []
+        why = None
+        for e in exits:
+            ce = ConcEval({S('to_check'): [Arr(s_) for s_ in shapes], S('dim'): dim,
+                           S('names'): ['a%d' % i for i in range(len(shapes))], S('func_name'): 'f'})
+            try:
+                if all(bool(ce.ev(cd)) == truth for cd, truth, ln in e.state.conds):
+                    taken.append(e)
+            except Undecided as x:
+                why = str(x)
+                break
+        if why is not None or len(taken) != 1:
+            ctx.undecided(rid, fi, c, 'cannot select the path taken for these shapes (%s)'
+                          % (why or '%d candidate paths' % len(taken)))
+            continue
+        e = taken[0]
+        raised = e.kind == 'raise'
+        if raised == mismatch:
+            ctx.passed(rid, fi, c, 'path: %s' % e.kind)
+        elif mismatch:
+            ctx.violation(rid, fi, c, 'arrays of shapes %s (compared on dim=%s) are accepted: mismatched lengths are '
+                          'processed instead of being rejected' % (shapes, dim), path=trace_tail(e.state, 6))
+        else:
+            ctx.violation(rid, fi, c, 'arrays of equal shapes %s (dim=%s) are rejected' % (shapes, dim),
+                          path=trace_tail(e.state, 6))
 
 
 def rule_no_module_state(ctx, rid):
